@@ -6,7 +6,8 @@ C06, round 5 — several SETTINGS frames inside one race window.
 "a DATA frame of stream `id` is sized (cc.mu)" and "the frame is written (cc.wmu)". The body
 writer can be off the CPU for longer than that: `writeRacedN id frames` lets the read loop process
 and acknowledge any number of SETTINGS frames in that window (each `processSettings` takes and
-releases both locks), stopping when one of them tears the connection down. Everything else is
+releases both locks), stopping when one of them tears the connection down; `openRacedN r vals more`
+does the same between the admission of a request and the write of its header block. Everything else is
 the two-phase machine (`NOp.r`).
 -/
 namespace Req.H2.Race
@@ -27,11 +28,15 @@ inductive NOp where
   /-- a DATA frame of stream `id` is sized (cc.mu), the read loop processes and acknowledges the
   SETTINGS frames `frames` one after the other, then the frame is written (cc.wmu) -/
   | writeRacedN (id : Nat) (frames : List (List (Nat × Nat)))
+  /-- a request is admitted and its stream created (cc.mu), the read loop processes and
+  acknowledges `vals` and then `more`, one after the other, then the header block is written -/
+  | openRacedN (r : Req) (vals : List (Nat × Nat)) (more : List (List (Nat × Nat)))
   deriving DecidableEq, Repr, Inhabited
 
 def NOp.ok : NOp → Prop
   | .r op => op.ok
   | .writeRacedN _ _ => True
+  | .openRacedN q _ _ => 0 < q.hdrLen
 
 def nstep (st : State) : NOp → State × List Event
   | .r op => rstep st op
@@ -48,6 +53,16 @@ def nstep (st : State) : NOp → State × List Event
           else
             let (st2, evs) := settingsSeq st1 frames
             (st2, evs ++ (if st2.closed then [] else [Event.c f]))
+
+  | .openRacedN q vals more =>
+    if st.closed then (st, [])
+    else if st.pendingOpen.isSome || !canTake st || !decide (liveCount st.streams < st.maxConcurrent) then (st, [])
+    else
+      let (st1, evs) := settingsSeq st (vals :: more)
+      if st1.closed then (st1, evs)
+      else
+        let (st2, fs) := doOpen st1 q
+        (st2, evs ++ fs.map Event.c)
 
 def nrunFrom (st : State) (hist : List Event) : List NOp → State × List Event
   | [] => (st, hist)
